@@ -227,7 +227,7 @@ def run(ctx):
                 nth = len(cases)
                 for entry in (['parse', 'format', ['parsestream', 'split', 'lazy', 'cli'][nth % 4]] if ctx.quick() else ['parse', 'parsestream', 'split', 'format', 'lazy', 'cli']):
                     opts = rng.choice(OPTS) if entry == 'format' else ({'argv': rng.choice([[], ['-r'], ['-k', 'upper', '-s']])} if entry == 'cli' else {})
-                    if entry in ('cli', 'lazy') and ctx.quick() and (limit >= 1000 or depth > limit):
+                    if entry in ('cli', 'lazy') and (limit >= 1000 or depth > limit):
                         continue      # (slow, and the depth scan at limit 80 covers these entry points at every depth)
                     if ctx.quick() and rng.random() < 0.6:
                         continue
